@@ -388,7 +388,7 @@ fn main() {
     if let Some(s) = t.sample {
         rep.sample(s);
     }
-    if t.torn_images < 100 || t.distinct_recovered < 5 {
+    if t.violations.is_empty() && (t.torn_images < 100 || t.distinct_recovered < 5) {
         rep.machinery("vacuous: too few torn images / recovered states");
     }
     rep.finish();
